@@ -200,7 +200,8 @@ func (u *zzG06Univ) alphabet() (acts []zzG06Act) {
 
 // ------------------------------------------------------------ observations
 
-// zzG06L is an abstract lease: mac, address, 2*static+acknowledged, host.
+// zzG06L is an abstract lease: mac, address, -1 for a reservation else 1 =
+// acknowledged and unexpired / 0 (Dhcp4's EncL with LeaseT = 1), host.
 type zzG06L struct {
 	Mac  string
 	IP   int
@@ -539,7 +540,7 @@ func (y *zzG06Sys) exec(a zzG06Act) (r zzG06Reply, err error) {
 func (y *zzG06Sys) absLease(l *dhcpsvc.Lease, now time.Time) (a zzG06L) {
 	a = zzG06L{Mac: y.u.aMAC(l.HWAddr), IP: y.u.aIP(l.IP), Host: y.u.aHost(l.Hostname)}
 	if l.IsStatic {
-		a.F = 3
+		a.F = -1
 	} else if l.Expiry.After(now) {
 		a.F = 1
 	}
